@@ -110,7 +110,7 @@ def rand_string(rng, n):
 
 class P(Property):
     id = 'C15'
-    gen_modules = ['gen_prefixint', 'gen_huffman', 'gen_huffman_enc', 'gen_prefixstring', 'gen_bitwin']
+    gen_modules = ['gen_prefixint', 'gen_huffman', 'gen_huffman_enc', 'gen_prefixstring', 'gen_bitwin', 'gen_huffiter']
     properties_v = 'Properties/C15.v'
     model_targets = ['Model/PrefixString.vo', 'Spec/PrefixInt.vo', 'Spec/RFC7541Huffman.vo', 'Spec/HuffmanKnown.vo']
     extract_v = 'Extract/ExtractC15.v'
@@ -118,7 +118,8 @@ class P(Property):
     harness_bin = 'c15'
     rule = ('he: all strings of length 0..2, seeded random strings up to 64 octets; hd: all payloads of 0..2 octets (quick) and '
             'of 3 octets (thorough, hd.blk = digest over 256 payloads per line, spec digest computed from the RFC reference decoder), '
-            'valid encodings with every padding length 0..15 and every padding bit pattern, valid symbols followed by 0..48 one '
+            'valid encodings with every padding length 0..15 and every padding bit pattern, valid literals ending in each of the 256 '
+            'octets (code lengths 5..30) at each of the 8 bit offsets (short and longer than 8 octets), valid symbols followed by 0..48 one '
             'bits, seeded random payloads; pi.dec: prefix sizes 1..8 x boundary values (prefix boundary, powers of two, 2^63-1+mask '
             '+-1, 2^64-1) at every truncation, with trailing octets, non-minimal forms up to 11 continuation octets, all 1- and '
             '2-octet inputs, random continuation patterns; pi.enc: sizes x flags x the same values; ps.dec/ps.enc: sizes 2..8 x '
@@ -219,6 +220,17 @@ class P(Property):
                     for pat in range(1 << padlen):
                         pad = '{:0{w}b}'.format(pat, w=padlen) if padlen else ''
                         out.append('hd ' + hx(bytes_of_bits(bits + pad)))
+        # --- valid literals: every final symbol (code lengths 5..30) at every bit offset, i.e. all 8 padding lengths
+        pre = {}
+        for cand in (b'', b'0', b' ', b'00', b'0 ', b'  ', b'000', b'&', b'00 ', b'0  ', b'X', b'0&', b'   0', b'!'):
+            r = sum(len(CODE[c]) for c in cand) % 8
+            pre.setdefault(r, cand)
+        assert len(pre) == 8, pre
+        for r in range(8):
+            for x in range(256):
+                out.append('hd ' + hx(huff_encode(pre[r] + bytes([x]))))
+                # the same at the end of a literal of more than 8 octets
+                out.append('hd ' + hx(huff_encode(b'content-type' + pre[r] + bytes([x]))))
         # --- valid symbols followed by k ones (class boundary 37/38), EOS inside
         for _ in range(6 if quick else 200):
             s = rand_string(rng, rng.randint(0, 5))
